@@ -10,6 +10,7 @@ import (
 	"slices"
 
 	"github.com/cilium/statedb/index"
+	"github.com/cilium/statedb/internal/simhook"
 	"github.com/cilium/statedb/lpm"
 )
 
@@ -354,6 +355,8 @@ func (l *lpmIndexTxn) lowerBoundNext(key index.Key) (func() ([]byte, object, boo
 
 // notify implements tableIndexTxn.
 func (l *lpmIndexTxn) notify() {
+	simhook.Yield("notify.begin")
+	defer simhook.Yield("notify.end")
 	if l.index.watch != nil {
 		close(l.index.watch)
 		l.index.watch = nil
